@@ -41,15 +41,35 @@ def flags(repo):
                                   "apply_content_edits_with_content"))
     if "truncate(true)" not in save and "File::create" not in save:
         raise RuntimeError("translate/execflags: History::save no longer opens a file the way the model knows")
-    if "create_new(true)" not in acq:
-        raise RuntimeError("translate/execflags: LockFile::acquire no longer uses create_new")
+    by_link = bool(re.search(r"fs::hard_link\(\s*&tmp_path\s*,\s*&lock_path\s*\)", acq))
+    if "create_new(true)" not in acq and not by_link:
+        raise RuntimeError("translate/execflags: LockFile::acquire neither uses create_new nor publishes by hard_link")
+    if by_link and not re.search(r"fs::write\(\s*&tmp_path", acq):
+        raise RuntimeError("translate/execflags: LockFile::acquire links a temp file it does not write with fs::write")
+    lock_src = rd("lock.rs")
+    drop = strip_comments(fn_body(lock_src, r"impl Drop for LockFile\s*\{\s*fn drop\(&mut self\)\s*\{", "Drop for LockFile"))
+    cli = lambda p: open(os.path.join(repo, "renamify-cli/src", p)).read()
+    op_apply = strip_comments(fn_body(rd("operations/apply.rs"), r"pub fn apply_operation\(.{0,400}?\)\s*->\s*Result<ApplyResult>\s*\{", "apply_operation"))
+    op_undo = strip_comments(fn_body(rd("operations/undo.rs"), r"pub fn undo_operation\(.{0,200}?\)\s*->\s*Result<UndoResult>\s*\{", "undo_operation"))
+    op_redo = strip_comments(fn_body(rd("operations/undo.rs"), r"pub fn redo_operation\(.{0,200}?\)\s*->\s*Result<RedoResult>\s*\{", "redo_operation"))
+    op_replace = strip_comments(fn_body(cli("replace.rs"), r"pub fn handle_replace\(.{0,1200}?\)\s*->\s*Result<\(\)>\s*\{", "handle_replace"))
+    op_rename = strip_comments(fn_body(rd("operations/rename.rs"), r"pub fn rename_operation\(.{0,1500}?\)\s*->\s*Result<\(RenameResult, Option<String>\)>\s*\{", "rename_operation"))
+    if "LockFile::acquire" not in op_rename:
+        raise RuntimeError("translate/execflags: rename_operation no longer takes the lock (the model's cmdRename does)")
     if "fs::write(" not in patch:
         raise RuntimeError("translate/execflags: apply_single_patch no longer uses fs::write")
     if "fs::rename(&temp_path, path)" not in edit:
         raise RuntimeError("translate/execflags: apply_content_edits_with_content no longer renames the temp file over the original")
     return {
         "atomicHistorySave": bool(re.search(r"fs::rename\(\s*&temp_path\s*,\s*&self\.path\s*\)", save)) and ".flush()" in save,
-        "emptyLockIsStale": bool(re.search(r"is_empty\(\)\s*\{[^}]*remove_file", acq, re.S)),
+        "publishByLink": by_link,
+        "emptyLockIsStale": bool(re.search(r"is_empty\(\)\s*\{[^}]*remove_file", acq, re.S))
+                            or "Failed to remove unparsable lock file" in acq,
+        "dropChecksContent": "owns_lock_file(" in drop,
+        "lockApply": "LockFile::acquire" in op_apply,
+        "lockUndo": "LockFile::acquire" in op_undo,
+        "lockRedo": "LockFile::acquire" in op_redo,
+        "lockReplace": "LockFile::acquire" in op_replace,
         "lockWriteFailureCleans": bool(re.search(r"if let Err\(\w+\) = file\.write_all[^}]*remove_file", acq, re.S)),
         "undoViaTemp": bool(re.search(r"fs::rename\(\s*&temp_path\s*,\s*file_path\s*\)", patch)),
         "undoTempRemovedOnFailure": "fs::remove_file(&temp_path)" in patch,
@@ -61,7 +81,13 @@ def flags(repo):
 
 DOC = {
     "atomicHistorySave": "history.rs::save writes `history.json.<pid>.tmp`, flushes, and renames it over history.json",
-    "emptyLockIsStale": "lock.rs::acquire removes an EMPTY lock file instead of failing on it",
+    "emptyLockIsStale": "lock.rs::acquire removes an empty / unparsable lock file as abandoned instead of failing on it",
+    "publishByLink": "lock.rs::acquire writes renamify.lock.<pid>.tmp and publishes it with fs::hard_link (never visible empty)",
+    "dropChecksContent": "Drop for LockFile removes the lock file only if it still holds this process's own content",
+    "lockApply": "operations/apply.rs::apply_operation takes the workspace lock",
+    "lockUndo": "operations/undo.rs::undo_operation takes the workspace lock",
+    "lockRedo": "operations/undo.rs::redo_operation takes the workspace lock",
+    "lockReplace": "renamify-cli/src/replace.rs::handle_replace takes the workspace lock (unless --dry-run)",
     "lockWriteFailureCleans": "lock.rs::acquire removes the lock file again when writing its content fails",
     "undoViaTemp": "undo.rs::apply_single_patch writes a temp file and renames it over the user's file",
     "undoTempRemovedOnFailure": "undo.rs::apply_single_patch removes its temp file when a step fails",
